@@ -498,3 +498,194 @@ func init() {
 			Run: runPartialEquality})
 	}
 }
+
+// ---- C14.R8: ascii mode writes only ASCII raw ----
+
+// Decided on the symbolic paths of py.StringEscape (pathtable.go): on every path with ascii == true, each alternative
+// of the per-character loop that writes the character itself carries a condition bounding it below 0x7F.
+func runAsciiModeRaw(c *Ctx, r *Rep) {
+	rows, und, pos := pathTable(c, tableSpec{key: "py|StringEscape", show: []string{"*"}, prim: []string{"fmt.Fprintf", "strconv.IsPrint", "strings.ContainsRune"}})
+	if len(und) > 0 || len(rows) == 0 {
+		r.undecided("asciiraw|py.StringEscape", pos, "function not interpretable: %s", strings.Join(clip(und, 3), "; "))
+		return
+	}
+	r.analysed("py.StringEscape")
+	n := 0
+	for _, row := range rows {
+		hdr := row
+		if i := strings.Index(row, "]"); i >= 0 {
+			hdr = row[:i]
+		}
+		if !strings.Contains(hdr, "ascii") || strings.Contains(hdr, "!(ascii)") {
+			continue
+		}
+		i := strings.Index(row, "LOOP(")
+		if i < 0 {
+			continue
+		}
+		body := row[i:]
+		for _, alt := range strings.Split(body, " | ") {
+			if !strings.Contains(alt, ".WriteRune(a[*])") {
+				continue
+			}
+			n++
+			cond := alt
+			if j := strings.Index(alt, "]"); j >= 0 {
+				cond = alt[:j]
+			}
+			okBound := strings.Contains(cond, "c < 0x7F") || strings.Contains(cond, "c < 0x20") || strings.Contains(cond, "c < 0x80")
+			r.check(okBound, "asciiraw|"+strings.TrimSpace(strings.TrimPrefix(cond, "LOOP(range s){")), pos,
+				"in ascii mode the character is written raw only below 0x7F",
+				"in ascii mode StringEscape writes a character raw under the condition "+strings.TrimSpace(cond)+"], which admits characters from 0x7F upwards: ascii('\u00e9') then contains a non-ASCII character instead of the escape \\xe9")
+		}
+	}
+	if n == 0 {
+		r.undecided("asciiraw|alternatives", pos, "no raw-write alternative found on the ascii-mode paths of StringEscape")
+	}
+}
+
+func init() {
+	register(&Rule{ID: "C14.R8", Prop: "C14", Floor: 1,
+		Doc: "ascii(): on every ascii-mode path of py.StringEscape the per-character alternatives that write the character itself are bounded below 0x7F (decided on the symbolic path table)",
+		Run: runAsciiModeRaw})
+}
+
+// ---- ExtSlice is never nested (C11.R11 / C06.R10) ----
+
+// compile.(*compiler).nestedSlice panics ("extended slice invalid in nested slice") when a dimension of an ExtSlice is
+// itself an ExtSlice; C11.R2 accepts that panic as unreachable because the grammar never builds one. This rule checks the
+// grammar side of that belief: every action that wraps its first symbol into a new ExtSlice does so under a condition on
+// the isExpr attribute of that symbol ("$1 is still a single subscript, not yet an ExtSlice").
+func runExtSliceGuard(c *Ctx, r *Rep) {
+	g := loadGrammar(c, r)
+	if g == nil {
+		return
+	}
+	n := 0
+	for _, a := range g.alts {
+		if a.body == nil {
+			continue
+		}
+		var visit func(stmts []ast.Stmt, conds []string)
+		visit = func(stmts []ast.Stmt, conds []string) {
+			for _, s := range stmts {
+				switch x := s.(type) {
+				case *ast.IfStmt:
+					cs := exprStr(x.Cond)
+					visit(x.Body.List, append(append([]string(nil), conds...), cs))
+					switch e := x.Else.(type) {
+					case *ast.BlockStmt:
+						visit(e.List, append(append([]string(nil), conds...), "!("+cs+")"))
+					case *ast.IfStmt:
+						visit([]ast.Stmt{e}, append(append([]string(nil), conds...), "!("+cs+")"))
+					}
+				default:
+					ast.Inspect(s, func(m ast.Node) bool {
+						cl, ok := m.(*ast.CompositeLit)
+						if !ok || !strings.HasSuffix(exprStr(cl.Type), "ExtSlice") {
+							return true
+						}
+						// does the literal take D1 as a dimension?
+						takes := false
+						ast.Inspect(cl, func(k ast.Node) bool {
+							if id, ok := k.(*ast.Ident); ok && id.Name == "D1" {
+								takes = true
+							}
+							return true
+						})
+						if !takes {
+							return true
+						}
+						n++
+						guardedBy := false
+						for _, cd := range conds {
+							if strings.Contains(cd, "D1_isExpr") {
+								guardedBy = true
+							}
+						}
+						key := fmt.Sprintf("extslice|%s (%s)", a.lhs, symsString(a))
+						if guardedBy {
+							r.ok(key, token.NoPos, "$1 becomes a dimension of a new ExtSlice only where its isExpr attribute says it is a single subscript")
+						} else {
+							r.bad(key, token.NoPos, "parser/grammar.y:%d: the action wraps $1 into a new ExtSlice under the condition [%s], which does not consult $<isExpr>1: when $1 is already an ExtSlice (two or more subscripts) it gets nested, and the compiler's nestedSlice panics (SystemError for x[a,b,]); when it is a lone slice with a trailing comma the wrapping may be skipped", a.line, strings.Join(conds, " && "))
+						}
+						return true
+					})
+				}
+			}
+		}
+		visit(a.body.List, nil)
+	}
+	if n == 0 {
+		r.undecided("extslice|sites", token.NoPos, "no action building an ExtSlice from $1 found in grammar.y")
+	}
+}
+
+// ---- the operand's storage is not used in place (C13.R9 / C17.R4) ----
+
+// In (*List).M__setitem__ the right-hand side may be the list itself. Reading `.Items` of the operand directly (instead
+// of a copy from SequenceTuple/SequenceList) makes the element stores read slots they have just overwritten.
+func runOperandStorageInPlace(c *Ctx, r *Rep) {
+	fd := c.MethodDecl("py", "List", "M__setitem__")
+	if fd == nil || fd.Body == nil {
+		r.undecided("operandstorage|(*py.List).M__setitem__", token.NoPos, "anchor method not found")
+		return
+	}
+	p := c.MustPkg("py")
+	info := p.TypesInfo
+	r.analysed("(*py.List).M__setitem__")
+	params := fd.Type.Params.List
+	operand := params[len(params)-1].Names[len(params[len(params)-1].Names)-1]
+	opObj := info.Defs[operand]
+	// variables type-asserted from the operand
+	derived := map[types.Object]bool{opObj: true}
+	ast.Inspect(fd.Body, func(n ast.Node) bool {
+		as, ok := n.(*ast.AssignStmt)
+		if !ok || len(as.Rhs) != 1 {
+			return true
+		}
+		if ta, ok := as.Rhs[0].(*ast.TypeAssertExpr); ok {
+			if id, ok := ta.X.(*ast.Ident); ok && derived[info.Uses[id]] {
+				if lid, ok := as.Lhs[0].(*ast.Ident); ok {
+					if o := info.Defs[lid]; o != nil {
+						derived[o] = true
+					}
+				}
+			}
+		}
+		return true
+	})
+	bad := 0
+	ast.Inspect(fd.Body, func(n ast.Node) bool {
+		sel, ok := n.(*ast.SelectorExpr)
+		if !ok || sel.Sel.Name != "Items" {
+			return true
+		}
+		id, ok := sel.X.(*ast.Ident)
+		if !ok || !derived[info.Uses[id]] {
+			return true
+		}
+		// len(x.Items) is harmless
+		bad++
+		r.bad(fmt.Sprintf("operandstorage|(*py.List).M__setitem__|%s.Items", id.Name), sel.Pos(), "slice assignment reads the item array of its operand in place (`%s.Items`): when the operand is the list being assigned to (L[::-1] = L) the element stores read slots they have just overwritten; take a copy (SequenceTuple) first", id.Name)
+		return true
+	})
+	if bad == 0 {
+		r.ok("operandstorage|(*py.List).M__setitem__", fd.Pos(), "the operand's items are only reached through a copying helper")
+	}
+}
+
+func init() {
+	for _, prop := range []string{"C11", "C06"} {
+		id := map[string]string{"C11": "C11.R11", "C06": "C06.R10"}[prop]
+		register(&Rule{ID: id, Prop: prop, Floor: 2,
+			Doc: "ExtSlice is never nested: every grammar action that makes $1 a dimension of a new ExtSlice does so under a condition on $<isExpr>1 (single subscript) — the grammar-side support of the compiler's 'extended slice invalid in nested slice' belief (C11.R2)",
+			Run: runExtSliceGuard})
+	}
+	for _, prop := range []string{"C13", "C17"} {
+		id := map[string]string{"C13": "C13.R9", "C17": "C17.R4"}[prop]
+		register(&Rule{ID: id, Prop: prop, Floor: 1,
+			Doc: "list slice assignment never reads the item array of its operand in place (operand.Items): the operand may be the list itself; items are taken through a copying helper",
+			Run: runOperandStorageInPlace})
+	}
+}
